@@ -220,5 +220,69 @@ func c09EndToEnd(ctx *Ctx) {
 			cl.Close()
 		}
 	}
+	// the verdict depends on the connection's keyspace, not on the text alone: the very same statement text sent by
+	// connections in different keyspaces, in both orders, and again after a USE on the same connection
+	for _, ver := range []primitive.ProtocolVersion{primitive.ProtocolVersion4, primitive.ProtocolVersion5} {
+		dial := func(cur string) *px.Client {
+			cl, err := px.Dial(env.Addr)
+			if err != nil {
+				panic(err)
+			}
+			if err := cl.Startup(ver, ""); err != nil {
+				panic(err)
+			}
+			if cur != "" {
+				_ = cl.Send(ver, 1, &message.Query{Query: "USE " + cur, Options: &message.QueryOptions{}})
+				if f, _ := cl.Next(5 * time.Second); f == nil || f.Opcode != byte(primitive.OpCodeResult) {
+					panic("USE " + cur + " failed")
+				}
+			}
+			return cl
+		}
+		ask := func(cl *px.Client, cur, q, t, text, tok, note string, prepare bool) {
+			be.ResetLog()
+			if prepare {
+				_ = cl.Send(ver, 5, &message.Prepare{Query: text})
+			} else {
+				_ = cl.Send(ver, 5, &message.Query{Query: text, Options: &message.QueryOptions{}})
+			}
+			_, _ = cl.Next(5 * time.Second)
+			_ = cl.Send(ver, 99, &message.Query{Query: "SELECT v FROM ks.t WHERE k = 'barrier'", Options: &message.QueryOptions{}})
+			for {
+				f, _ := cl.Next(5 * time.Second)
+				if f == nil || f.Stream == 99 {
+					break
+				}
+			}
+			reachedBackend := false
+			for _, rec := range be.Snapshot() {
+				if rec.Token == tok {
+					reachedBackend = true
+				}
+			}
+			ctx.Emit(hv.L(hv.S(cur), hv.S(text), hv.I(1), hv.S(q), hv.S(t), hv.I(1)), hv.L(hv.Bool(!reachedBackend)), note)
+			ctx.Count(note)
+		}
+		for i, t := range []string{"local", "peers", "PEERS_V2", "t", "\"local\"", "schema_keyspaces"} {
+			for _, order := range [][2]string{{"system", "myks"}, {"myks", "system"}, {"", "system"}, {"SYSTEM", ""}} {
+				seq++
+				tok := fmt.Sprintf("s%dx%d", ctx.Seed%1000, seq)
+				text := "SELECT * FROM " + t + " WHERE key = 'tok:" + tok + "'"
+				a, b := dial(order[0]), dial(order[1])
+				prep := (i+seq)%3 == 0
+				ask(a, order[0], "", t, text, tok, "same-text:first-connection", prep)
+				ask(b, order[1], "", t, text, tok, "same-text:second-connection-other-keyspace", prep)
+				ask(a, order[0], "", t, text, tok, "same-text:first-connection-again", prep)
+				// and one connection that changes its keyspace between two sends of the same text
+				if order[1] != "" {
+					_ = a.Send(ver, 1, &message.Query{Query: "USE " + order[1], Options: &message.QueryOptions{}})
+					_, _ = a.Next(5 * time.Second)
+					ask(a, order[1], "", t, text, tok, "same-text:after-USE-on-the-same-connection", prep)
+				}
+				a.Close()
+				b.Close()
+			}
+		}
+	}
 	_ = strings.ToLower
 }
